@@ -121,6 +121,28 @@ theorem react_keeps_proxy (p : Nat) (c : Cb) (r : Reaction) (s : St) : Keeps p s
 
 /-! ## Pass 1: connection-level callbacks -/
 
+@[simp] theorem runConnCb_phase (c : Cb) (s : St) : (runConnCb .repaired c s).phase = s.phase := by simp [runConnCb, St.emit]
+@[simp] theorem runConnCb_fired (c : Cb) (s : St) : (runConnCb .repaired c s).fired = s.fired := by simp [runConnCb, St.emit]
+@[simp] theorem runConnCb_busName (c : Cb) (s : St) : (runConnCb .repaired c s).busName = s.busName := by simp [runConnCb, St.emit]
+@[simp] theorem runConnCb_timers (c : Cb) (s : St) : (runConnCb .repaired c s).timers = s.timers := by simp [runConnCb, St.emit]
+@[simp] theorem runConnCb_log (c : Cb) (s : St) : (runConnCb .repaired c s).log = s.log ++ [.connCb c.id] := by simp [runConnCb, St.emit]
+theorem runConnCb_keepsAll (c : Cb) (s : St) : KeepsAll s (runConnCb .repaired c s) := by
+  intro q x h
+  exact react_keepsAll_conn c c.react (s.emit (.connCb c.id)) q x (by simpa [St.emit] using h)
+
+theorem runConnCbs_frame (cbs : List Cb) : ∀ s : St,
+    (runConnCbs .repaired cbs s).phase = s.phase ∧ (runConnCbs .repaired cbs s).fired = s.fired ∧
+    (runConnCbs .repaired cbs s).busName = s.busName ∧ (runConnCbs .repaired cbs s).timers = s.timers ∧
+    KeepsAll s (runConnCbs .repaired cbs s) ∧
+    (runConnCbs .repaired cbs s).log = s.log ++ cbs.map (fun c => Fx.connCb c.id) := by
+  induction cbs with
+  | nil => intro s; simp [runConnCbs, KeepsAll.refl]
+  | cons c t ih =>
+    intro s
+    obtain ⟨h1, h2, h3, h4, h5, h6⟩ := ih (runConnCb .repaired c s)
+    refine ⟨by simp [runConnCbs, h1], by simp [runConnCbs, h2], by simp [runConnCbs, h3], by simp [runConnCbs, h4],
+      (runConnCb_keepsAll c s).trans h5, by simp [runConnCbs, h6]⟩
+
 /-- The pending table has distinct serials, all below the counter. -/
 def PendOk (s : St) : Prop :=
   (s.pending.map (·.serial)).Nodup ∧ ∀ c ∈ s.pending, c.serial < s.nextSerial
@@ -176,27 +198,34 @@ def failFx (c : Call) : List Fx :=
   (if c.timed then [Fx.timerCancelled c.serial] else []) ++ [Fx.callErr c.serial (errKindOf c.kind)]
 
 theorem failCall_frame (c : Call) (s : St) :
-    (failCall .repaired c s).phase = s.phase ∧ (failCall .repaired c s).fired = s.fired ∧ (failCall .repaired c s).busName = s.busName ∧
-    (failCall .repaired c s).registry = s.registry ∧ (failCall .repaired c s).proxies = s.proxies ∧
+    (failCall .repaired c s).phase = s.phase ∧ (failCall .repaired c s).fired = s.fired ∧
+    (failCall .repaired c s).busName = s.busName ∧ KeepsAll s (failCall .repaired c s) ∧
     (failCall .repaired c s).log = s.log ++ failFx c ∧
     (failCall .repaired c s).timers = if c.timed then s.timers.filter (· ≠ c.serial) else s.timers := by
-  unfold failCall .repaired failFx
-  cases c.timed <;> simp [St.emit, react_proxies_errback]
+  refine ⟨?_, ?_, ?_, ?_, ?_, ?_⟩
+  · unfold failCall; cases c.timed <;> simp [St.emit]
+  · unfold failCall; cases c.timed <;> simp [St.emit]
+  · unfold failCall; cases c.timed <;> simp [St.emit]
+  · intro q x h
+    unfold failCall
+    apply react_keepsAll_errback
+    cases c.timed <;> simpa [St.emit] using h
+  · unfold failCall failFx; cases c.timed <;> simp [St.emit]
+  · unfold failCall; cases c.timed <;> simp [St.emit]
 
 theorem failCalls_frame (calls : List Call) : ∀ s : St,
     (failCalls .repaired calls s).phase = s.phase ∧ (failCalls .repaired calls s).fired = s.fired ∧
-    (failCalls .repaired calls s).busName = s.busName ∧ (failCalls .repaired calls s).registry = s.registry ∧
-    (failCalls .repaired calls s).proxies = s.proxies ∧
+    (failCalls .repaired calls s).busName = s.busName ∧ KeepsAll s (failCalls .repaired calls s) ∧
     (failCalls .repaired calls s).log = s.log ++ calls.flatMap failFx ∧
     (∀ t ∈ (failCalls .repaired calls s).timers, t ∈ s.timers ∧ ∀ c ∈ calls, c.timed = true → c.serial ≠ t) := by
   induction calls with
-  | nil => intro s; simp [failCalls]
+  | nil => intro s; simp [failCalls, KeepsAll.refl]
   | cons c t ih =>
     intro s
-    obtain ⟨h1, h2, h3, h4, h5, h6, h7⟩ := ih (failCall .repaired c s)
-    obtain ⟨g1, g2, g3, g4, g5, g6, g7⟩ := failCall_frame c s
+    obtain ⟨h1, h2, h3, h5, h6, h7⟩ := ih (failCall .repaired c s)
+    obtain ⟨g1, g2, g3, g5, g6, g7⟩ := failCall_frame c s
     refine ⟨by simp [failCalls, h1, g1], by simp [failCalls, h2, g2], by simp [failCalls, h3, g3],
-      by simp [failCalls, h4, g4], by simp [failCalls, h5, g5], by simp [failCalls, h6, g6], ?_⟩
+      g5.trans h5, by simp [failCalls, h6, g6], ?_⟩
     intro x hx
     simp only [failCalls] at hx
     obtain ⟨hx1, hx2⟩ := h7 x hx
@@ -227,38 +256,33 @@ def proxyFx (proxies : List Proxy) (slot : Nat × Nat) : List Fx :=
 
 theorem runProxyCb_frame (p : Nat) (c : Cb) (s : St) :
     (runProxyCb .repaired p c s).phase = s.phase ∧ (runProxyCb .repaired p c s).fired = s.fired ∧
-    (runProxyCb .repaired p c s).busName = s.busName ∧ (runProxyCb .repaired p c s).registry = s.registry ∧
+    (runProxyCb .repaired p c s).busName = s.busName ∧
     (runProxyCb .repaired p c s).timers = s.timers ∧
     (runProxyCb .repaired p c s).log = s.log ++ [Fx.proxyCb p c.id] ∧
-    (∀ q, q ≠ p → findProxy q (runProxyCb .repaired p c s).proxies = findProxy q s.proxies) := by
+    Keeps p s (runProxyCb .repaired p c s) := by
   refine ⟨by simp [runProxyCb, St.emit], by simp [runProxyCb, St.emit], by simp [runProxyCb, St.emit],
-    by simp [runProxyCb, St.emit], by simp [runProxyCb, St.emit], by simp [runProxyCb, St.emit], ?_⟩
-  intro q hq
-  simp only [runProxyCb]
-  rw [react_findProxy_ne p c _ _ q hq]
-  simp [St.emit]
+    by simp [runProxyCb, St.emit], by simp [runProxyCb, St.emit], ?_⟩
+  intro q x hq h
+  exact react_keeps_proxy p c c.react (s.emit (.proxyCb p c.id)) q x hq (by simpa [St.emit] using h)
 
 theorem runProxyCbs_frame (p : Nat) (cbs : List Cb) : ∀ s : St,
     (runProxyCbs .repaired p cbs s).phase = s.phase ∧ (runProxyCbs .repaired p cbs s).fired = s.fired ∧
-    (runProxyCbs .repaired p cbs s).busName = s.busName ∧ (runProxyCbs .repaired p cbs s).registry = s.registry ∧
+    (runProxyCbs .repaired p cbs s).busName = s.busName ∧
     (runProxyCbs .repaired p cbs s).timers = s.timers ∧
     (runProxyCbs .repaired p cbs s).log = s.log ++ cbs.map (fun c => Fx.proxyCb p c.id) ∧
-    (∀ q, q ≠ p → findProxy q (runProxyCbs .repaired p cbs s).proxies = findProxy q s.proxies) := by
+    Keeps p s (runProxyCbs .repaired p cbs s) := by
   induction cbs with
-  | nil => intro s; simp [runProxyCbs]
+  | nil => intro s; simp [runProxyCbs, Keeps.refl]
   | cons c t ih =>
     intro s
-    obtain ⟨h1, h2, h3, h4, h5, h6, h7⟩ := ih (runProxyCb .repaired p c s)
-    obtain ⟨g1, g2, g3, g4, g5, g6, g7⟩ := runProxyCb_frame p c s
-    refine ⟨by simp [runProxyCbs, h1, g1], by simp [runProxyCbs, h2, g2], by simp [runProxyCbs, h3, g3],
-      by simp [runProxyCbs, h4, g4], by simp [runProxyCbs, h5, g5], by simp [runProxyCbs, h6, g6], ?_⟩
-    intro q hq
-    simp only [runProxyCbs]
-    rw [h7 q hq, g7 q hq]
+    obtain ⟨h1, h2, h3, h5, h6, h7⟩ := ih (runProxyCb .repaired p c s)
+    obtain ⟨g1, g2, g3, g5, g6, g7⟩ := runProxyCb_frame p c s
+    exact ⟨by simp [runProxyCbs, h1, g1], by simp [runProxyCbs, h2, g2], by simp [runProxyCbs, h3, g3],
+      by simp [runProxyCbs, h5, g5], by simp [runProxyCbs, h6, g6], g7.trans h7⟩
 
 theorem runProxies_basic (reg : List (Nat × Nat)) : ∀ s : St,
     (runProxies .repaired reg s).phase = s.phase ∧ (runProxies .repaired reg s).fired = s.fired ∧
-    (runProxies .repaired reg s).busName = s.busName ∧ (runProxies .repaired reg s).registry = s.registry ∧
+    (runProxies .repaired reg s).busName = s.busName ∧
     (runProxies .repaired reg s).timers = s.timers := by
   induction reg with
   | nil => intro s; simp [runProxies]
@@ -272,49 +296,51 @@ theorem runProxies_basic (reg : List (Nat × Nat)) : ∀ s : St,
       by_cases ha : q.alive = true
       · have hv : Variant.repaired.snapshotCallbacks = true := rfl
         simp only [ha, hv, if_true]
-        obtain ⟨g1, g2, g3, g4, g5, _, _⟩ := runProxyCbs_frame p q.cbs s
-        obtain ⟨h1, h2, h3, h4, h5⟩ := ih (runProxyCbs .repaired p q.cbs s)
-        exact ⟨by rw [h1, g1], by rw [h2, g2], by rw [h3, g3], by rw [h4, g4], by rw [h5, g5]⟩
+        obtain ⟨g1, g2, g3, g5, _, _⟩ := runProxyCbs_frame p q.cbs s
+        obtain ⟨h1, h2, h3, h5⟩ := ih (runProxyCbs .repaired p q.cbs s)
+        exact ⟨by rw [h1, g1], by rw [h2, g2], by rw [h3, g3], by rw [h5, g5]⟩
       · have ha' : q.alive = false := by simpa using ha
         simp only [ha', Bool.false_eq_true, if_false]
         exact ih s
 
-theorem runProxies_frame (reg : List (Nat × Nat)) (hnd : (reg.map (·.2)).Nodup) : ∀ s : St,
-    (runProxies .repaired reg s).phase = s.phase ∧ (runProxies .repaired reg s).fired = s.fired ∧
-    (runProxies .repaired reg s).busName = s.busName ∧ (runProxies .repaired reg s).registry = s.registry ∧
-    (runProxies .repaired reg s).timers = s.timers ∧
+/-- The walk over a snapshot `reg` of the registry whose slots name distinct, existing proxies: each live
+proxy's callbacks (as they are when the walk starts), slot by slot - whatever the callbacks do, including
+obtaining new proxies (which are not part of this walk). -/
+theorem runProxies_log (reg : List (Nat × Nat)) (hnd : (reg.map (·.2)).Nodup) : ∀ s : St,
+    (∀ e ∈ reg, ∃ x, findProxy e.2 s.proxies = some x) →
     (runProxies .repaired reg s).log = s.log ++ reg.flatMap (proxyFx s.proxies) := by
   induction reg with
-  | nil => intro s; simp [runProxies]
+  | nil => intro s _; simp [runProxies]
   | cons e t ih =>
-    intro s
+    intro s hex
     obtain ⟨k, p⟩ := e
     have hnd' : (t.map (·.2)).Nodup := (List.nodup_cons.mp (by simpa using hnd)).2
     have hp : p ∉ t.map (·.2) := (List.nodup_cons.mp (by simpa using hnd)).1
+    have hext : ∀ e ∈ t, ∃ x, findProxy e.2 s.proxies = some x := fun e he => hex e (List.mem_cons_of_mem _ he)
     simp only [runProxies]
     cases hf : findProxy p s.proxies with
-    | none =>
-      obtain ⟨h1, h2, h3, h4, h5, h6⟩ := ih hnd' s
-      simp [h1, h2, h3, h4, h5, h6, proxyFx, hf]
+    | none => rw [ih hnd' s hext]; simp [proxyFx, hf]
     | some q =>
       by_cases ha : q.alive = true
       · have hv : Variant.repaired.snapshotCallbacks = true := rfl
         simp only [ha, hv, if_true]
-        obtain ⟨g1, g2, g3, g4, g5, g6, g7⟩ := runProxyCbs_frame p q.cbs s
-        obtain ⟨h1, h2, h3, h4, h5, h6⟩ := ih hnd' (runProxyCbs .repaired p q.cbs s)
-        refine ⟨by rw [h1, g1], by rw [h2, g2], by rw [h3, g3], by rw [h4, g4], by rw [h5, g5], ?_⟩
-        rw [h6, g6]
+        obtain ⟨_, _, _, _, g6, g7⟩ := runProxyCbs_frame p q.cbs s
+        have hext' : ∀ e ∈ t, ∃ x, findProxy e.2 (runProxyCbs .repaired p q.cbs s).proxies = some x := by
+          intro e he
+          obtain ⟨x, hx⟩ := hext e he
+          exact ⟨x, g7 e.2 x (fun h => hp (h ▸ List.mem_map_of_mem he)) hx⟩
+        rw [ih hnd' _ hext', g6]
         have hcongr : t.flatMap (proxyFx (runProxyCbs .repaired p q.cbs s).proxies) = t.flatMap (proxyFx s.proxies) := by
           apply flatMap_congr'
-          intro x hx
-          have hxp : x.2 ≠ p := fun e => hp (e ▸ List.mem_map_of_mem hx)
+          intro e he
+          obtain ⟨x, hx⟩ := hext e he
+          have hxp : e.2 ≠ p := fun h => hp (h ▸ List.mem_map_of_mem he)
           simp only [proxyFx]
-          rw [g7 x.2 hxp]
+          rw [g7 e.2 x hxp hx, hx]
         rw [hcongr]
         simp [proxyFx, hf, ha]
       · have ha' : q.alive = false := by simpa using ha
         simp only [ha', Bool.false_eq_true, if_false]
-        obtain ⟨h1, h2, h3, h4, h5, h6⟩ := ih hnd' s
-        simp [h1, h2, h3, h4, h5, h6, proxyFx, hf, ha']
+        rw [ih hnd' s hext]; simp [proxyFx, hf, ha']
 
 end Txdbus.Client.Lifecycle
